@@ -1,4 +1,5 @@
 """Per-property correspondence routines and property oracles (DESIGN section 7)."""
+import os
 import json, os, random, struct, subprocess, time
 import vlib
 from vlib import log
@@ -427,6 +428,10 @@ def structure_cases():
         px = zlib.compress(bytes([50, 60, 70, 255]) * ntiles)
         return mk_chunk(0x2023, struct.pack("<IIIHHh", tid, 2, ntiles, 1, 1, 1) + bytes(14) + struct.pack("<H", 0)
                         + struct.pack("<I", len(px)) + px)
+    def tileset_dims(tid, ntiles, tw, th):
+        px = zlib.compress(bytes([50, 60, 70, 255]) * (ntiles * tw * th))
+        return mk_chunk(0x2023, struct.pack("<IIIHHh", tid, 2, ntiles, tw, th, 1) + bytes(14) + struct.pack("<H", 0)
+                        + struct.pack("<I", len(px)) + px)
     def layer(ltype, tsid):
         b = struct.pack("<HHHHHHBBH", 1, ltype, 0, 0, 0, 0, 255, 0, 0) + struct.pack("<H", 1) + b"L"
         if ltype == 2:
@@ -464,7 +469,8 @@ def structure_cases():
             cels.append((f"tmb{bits}n{len(ids)}i{ids[0]}", [tm_cel_bits(bits, ids)]))
     tilesets = [("ts-", []), ("ts0n1", [tileset(0, 1)]), ("ts0n2", [tileset(0, 2)]), ("ts1n2", [tileset(1, 2)]),
                 ("ts0n0", [tileset(0, 0)]), ("ts0n2+1n1", [tileset(0, 2), tileset(1, 1)]),
-                ("ts7n1+1n2+0n2", [tileset(7, 1), tileset(1, 2), tileset(0, 2)])]
+                ("ts7n1+1n2+0n2", [tileset(7, 1), tileset(1, 2), tileset(0, 2)]),
+                ("ts0n0w0", [tileset_dims(0, 0, 0, 3)]), ("ts0n0h0", [tileset_dims(0, 0, 3, 0)]), ("ts0n0w0h0", [tileset_dims(0, 0, 0, 0)])]
     layers = [("img", layer(0, 0)), ("grp", layer(1, 0)), ("tm0", layer(2, 0)), ("tm1", layer(2, 1)), ("tm7", layer(2, 7))]
     def img(w, h, ctype=0):
         px = bytes([5, 6, 7, 255]) * (w * h)
@@ -570,6 +576,12 @@ def structure_cases():
                     f0 = [mk_layer()] + ([tagsk(n0)] if n0 else []) + ([ud] if pre else [])
                     f1 = [tagsk(n1)] + [ud] * nud
                     out.append((f"latetags/{n0}/{n1}/{nud}/{pre}", mk_header(2, 2, 2) + mk_frame(f0) + mk_frame(f1)))
+    # more user-data records after a Tags chunk than it has tags (the per-tag cursor runs past the last tag)
+    for n in (0, 1, 2, 3):
+        for k in (n + 1, n + 2):
+            for tail in (0, 1):
+                ch = [mk_layer(), tagsk(n)] + [ud] * k + ([mk_layer(name=b"Z"), ud] if tail else [])
+                out.append((f"tags-overrun/{n}/{k}/{tail}", mk_header(1, 2, 2) + mk_frame(ch)))
     # tileset chunks whose declared sizes are extreme in all three fields at once
     for depth in (8, 16, 32):
         for count in (0xFFFFFFFF, 0x80000000, 0x40008001, 0x10000, 1):
@@ -739,6 +751,34 @@ def c19_extra(ctx, scale, res, files, model_obs, impl_obs):
     compare_cases(res, big, m, i, CELS + RENDER, must_load_oracle, what="three routes with 65537 layers",
                   spec_backed="the model's single cel function of (frame as u16, layer as u16)")
     res.distribution["many-layer sprites"] = 1
+    # single-cel sprites carrying a colour profile chunk of every type / gamma flag / gamma value: those the
+    # model loads are compared with it; for ANY of them the implementation loads (the unsupported ones
+    # should be refused, which is C15's business) the frame must still render exactly its only cel
+    prof = []
+    for ptype in (0, 1, 2):
+        for flags in (0, 1):
+            for gamma in (0x10000, 0x23333, 0x7333, 0):
+                body = struct.pack("<HHI", ptype, flags, gamma) + bytes(8) + (struct.pack("<I", 4) + b"icc!" if ptype == 2 else b"")
+                px = bytes([10, 100, 200, 255, 128, 64, 32, 200, 7, 8, 9, 0, 250, 128, 3, 90])
+                c = mk_chunk(0x2005, struct.pack("<HhhBH", 0, 0, 0, 255, 0) + bytes(7) + struct.pack("<HH", 2, 2) + px)
+                prof.append((f"profile/{ptype}/{flags}/{gamma:x}", mk_header(1, 2, 2) + mk_frame([mk_chunk(0x2007, body), mk_layer(), c])))
+    pm, pi_ = run_both(prof)
+    def porc(cid, data, impl, model):
+        if vlib.outcome(impl) != "ok":
+            return None
+        fi = next((l.split(" ")[2] for l in impl if l.startswith("frameimg 0 ")), None)
+        ci = next((w[4:] for l in impl if l.startswith("celA 0 0 ") for w in l.split(" ") if w.startswith("img=")), None)
+        if fi is None or ci is None or fi.split(":")[:2] != ci.split(":")[:2]:
+            return f"frame 0 ({fi}) does not render exactly the image of its only visible cel ({ci})"
+        return None
+    loadable = [(c, b) for c, b in prof if vlib.outcome(pm[c]) == "ok"]
+    compare_cases(res, loadable, pm, pi_, CELS + RENDER, must_load_oracle, what="single-cel sprites with a colour profile chunk")
+    rest = [(c, b) for c, b in prof if vlib.outcome(pm[c]) != "ok"]
+    for cid, b in rest:
+        res.evaluations += 1
+        why = porc(cid, b, pi_.get(cid) or [], pm[cid])
+        if why:
+            res.oracle_failures.append({"id": cid, "input_hex": b.hex(), "what": why, "call": "Frame::image vs Cel::image on a sprite with a colour profile chunk"})
 
 
 register("C19", wf_routine(CELS + RENDER + ["tilemap", "iter", "iterx", "layers", "frames"], [("render", 200, 5000), ("tiles", 100, 3000), ("large", 4, 60)],
@@ -1124,6 +1164,12 @@ def c15_run(ctx, scale):
             body = b"".join(chunks)
             fr = struct.pack("<IHHHHI", 16 + len(body), 0xF1FA, 0xFFFF, 100, 0, len(chunks)) + body
             files.append((f"feat/late-chunk/{what}/{len(chunks)}", mk_header(1, 1, 1) + fr))
+    # an unknown direction on a tag that spans several frames / one frame / has from > to
+    for fr, to in ((0, 1), (0, 2), (1, 1), (2, 2), (2, 0), (0, 0)):
+        for d in (3, 4, 7, 200, 255):
+            tg = struct.pack("<H", 2) + bytes(8) + b"".join(
+                struct.pack("<HHBH", f_, t_, d_, 0) + bytes(6) + bytes(4) + struct.pack("<H", 1) + b"t" for f_, t_, d_ in ((0, 0, 1), (fr, to, d)))
+            files.append((f"feat/anim-dir-span/{fr}-{to}/{d}", mk_header(3, 1, 1) + mk_frame([mk_layer(), mk_chunk(0x2018, tg)]) + mk_frame([]) * 2))
     xr = [(c, b) for c, b in structure_cases() if c.split("/")[0] in ("exttileset", "tsdup")]
     xm, xi = run_both(xr, outcome_only=True)
     def xorc(cid, data, impl, model):
@@ -1617,9 +1663,25 @@ def c14_run(ctx, scale):
             k = min(end - 1, 130 + code)
             add(f"kind{code}@{k}", ",".join(["d1"] * k + [f"f{code}"]), f"io:{'UnexpectedEof' if code == 0 else code}")
             add(f"plainkind{code}@{k}", ",".join(["d1"] * k + [f"F{code}"]), f"io:{'UnexpectedEof' if code == 0 else code}")
+    # the last frame declares 8 more bytes than its chunks use and the stream has them: a hard error at
+    # or inside that padding comes after everything needed was delivered
+    datas = dict(base)
+    for cid, b in list(base)[:40]:
+        fr = [off for kind, off, ln in vlib.walk_chunks(b) if kind == "frame"]
+        end = end_of_last_frame(b)
+        if not fr or end != len(b):
+            continue
+        sz = struct.unpack_from("<I", b, fr[-1])[0]
+        pb = b[:fr[-1]] + struct.pack("<I", sz + 8) + b[fr[-1] + 4:] + bytes([0xAA] * 8)
+        pcid = f"{cid}~pad"
+        datas[pcid] = pb
+        for tag, ev in [("plain", "-")] + [(f"fail-in-padding@{k}", ",".join(["d1"] * k + ["f3"])) for k in (end, end + 1, end + 7, end + 8)] \
+                + [(f"interrupted-in-padding@{end}", ",".join(["d1"] * end + ["i", "d1"] * 9))]:
+            rid = f"{pcid}|{tag}"
+            reqs.append(f"SCHED {rid} {pb.hex()} {ev}")
+            meta[rid] = (pcid, "same")
     # truncated files through read_file: the same result (also the same error value) as the same
     # bytes from memory
-    datas = dict(base)
     for cid, b in list(base):
         end = end_of_last_frame(b) or len(b)
         for cut in sorted({0, 50, 127, 136, end // 2, end - 1}):
@@ -1874,6 +1936,21 @@ def hostile_memory_inputs(ctx, scale):
     pal = mk_chunk(0x2019, struct.pack("<III", 1, 0, 0) + bytes(8) + struct.pack("<HBBBB", 0, 1, 2, 3, 255))
     out.append(("bomb-indexed/8200x8200", mk_header(1, 4, 4, 8) + mk_frame([pal, mk_layer(), mk_chunk(0x2005, struct.pack("<HhhBH", 0, 0, 0, 255, 2) + bytes(7)
                                                                                      + struct.pack("<HH", 8200, 8200) + zb)])))
+    # ignorable chunks (cel extra, mask, path) declaring 1 GiB / 4 GiB inside a frame that declares as much
+    for ty in (0x2006, 0x2016, 0x2017):
+        for sz in (1 << 30, 0xFFFFFF00, 1 << 26):
+            body = mk_layer() + struct.pack("<IH", sz, ty) + bytes(20)
+            fr = struct.pack("<IHHHHI", min(0xFFFFFFFF, 16 + len(mk_layer()) + sz), 0xF1FA, 2, 100, 0, 2) + body
+            out.append((f"ignored-chunk-declared/{ty:x}/{sz:x}", mk_header(1, 4, 4) + fr))
+    # tilemap cels declaring 8 / 16 bits per tile over a deflate bomb (unsupported: nothing may be built from them)
+    for bits in (8, 16):
+        zt = zlib.compress(bytes(4097 * 4096 * (bits // 8)), 9)
+        ts1b = mk_chunk(0x2023, struct.pack("<IIIHHh", 0, 2, 1, 1, 1, 1) + bytes(14) + struct.pack("<H", 0)
+                        + struct.pack("<I", len(zlib.compress(bytes(4)))) + zlib.compress(bytes(4)))
+        ltb = mk_chunk(0x2004, struct.pack("<HHHHHHBBH", 1, 2, 0, 0, 0, 0, 255, 0, 0) + struct.pack("<H", 1) + b"T" + struct.pack("<I", 0))
+        ctb = mk_chunk(0x2005, struct.pack("<HhhBH", 0, 0, 0, 255, 3) + bytes(7)
+                       + struct.pack("<HHHIIII", 4097, 4096, bits, 0x1fffffff, 0x20000000, 0x40000000, 0x80000000) + bytes(10) + zt)
+        out.append((f"bomb-tilemap-bits/{bits}", mk_header(1, 4, 4) + mk_frame([ts1b, ltb, ctb])))
     # many tags chunks each declaring 65535 tags
     tags = mk_chunk(0x2018, struct.pack("<H", 65535) + bytes(8))
     out.append(("tags-declared", mk_header(1, 4, 4) + mk_frame([mk_layer()] + [tags] * 50)))
@@ -2036,6 +2113,19 @@ def c07_run(ctx, scale):
                     extra.append((cid[:-2] + f"-zw{wb}", recompress(b, 6, wb)))
                 except Exception:
                     pass
+            # the header's deprecated speed word and its file-size dword at values below the frame count /
+            # the real length; an ignorable chunk without any payload (declared size 6) in the first and last frame
+            nfr = struct.unpack_from("<H", b, 6)[0]
+            for sp in sorted({0, 1, max(0, nfr - 1)}):
+                extra.append((cid[:-2] + f"-speed{sp}", b[:18] + struct.pack("<H", sp) + b[20:]))
+            for sz in (0, 128, max(0, len(b) - 1)):
+                extra.append((cid[:-2] + f"-fsize{sz}", struct.pack("<I", sz) + b[4:]))
+            try:
+                for ty in (0x2017, 0x2016, 0x2006):
+                    extra.append((cid[:-2] + f"-empty{ty:x}first", insert_chunk(b, 0, mk_chunk(ty, b""))))
+                    extra.append((cid[:-2] + f"-empty{ty:x}last", insert_chunk(b, nfr - 1, mk_chunk(ty, b""))))
+            except struct.error:
+                pass
             # bytes after the last frame, among them a stale copy of the last frame / of its header
             fr = [off for kind, off, ln in vlib.walk_chunks(b) if kind == "frame"]
             end = end_of_last_frame(b)
@@ -2546,10 +2636,35 @@ def c16_run(ctx, scale):
                                    "first_difference": {"line": d[0], "model": d[1][:300], "impl": d[2][:300]}})
         if len(res.samples) < 4:
             res.samples.append({"id": cid, "bytes": len(data), "threads": 16, "observation_lines": len(a)})
+    # the unoptimised build (`dbg`: opt-level 0 for the library and the harness, every debug check on): the
+    # well-formed corpus must be observed exactly as in the optimised build (stack depth of recursive code,
+    # arithmetic that only the optimiser makes harmless)
+    dfiles = [(c, b) for c, b in vlib.verif_corpus_wf(include_big=("layers",)) if len(b) < 20000 or "nested" in c]
+    dfiles += [(c, b) for c, b in vlib.corpus_files(max_size=3000)]
+    # tilemap cels with unusual id masks / bits per tile, tilesets in every cross-reference shape (loadable or not:
+    # the OUTCOME must not depend on the profile either)
+    dfiles += [(c, b) for c, b in structure_cases() if c.startswith("xref/") and ("/tmm" in c or "/tmb" in c or c.endswith("/0"))][::2]
+    dl = vlib.load_lines(dfiles)
+    robs, _ = vlib.run_impl(dl, "release")
+    for prof in ("dbg", "relchk"):
+        os.environ["OBSERVE_CASE_TIMEOUT_MS"] = "60000"
+        try:
+            dobs, _ = vlib.run_impl(dl, prof, timeout=1200)
+        finally:
+            os.environ["OBSERVE_CASE_TIMEOUT_MS"] = "8000"
+        for cid, b in dfiles:
+            res.evaluations += 1
+            res.compared += 1
+            if dobs.get(cid) != robs.get(cid):
+                d = vlib.first_diff(robs.get(cid) or ["missing"], dobs.get(cid) or ["missing"])
+                res.oracle_failures.append({"id": cid, "input_hex": b.hex()[:400000], "build_profile": prof,
+                                            "call": "whole-API observation, " + ("unoptimised build" if prof == "dbg" else "build with overflow checks") + " vs optimised build",
+                                            "what": f"the {prof} build observes line {d[0]} as `{d[2][:200]}` where the optimised build observes `{d[1][:200]}`"})
+    res.distribution["profile-comparison files"] = len(dfiles)
     return res
 
 
-register("C16", c16_run, profiles=("release", "relchk"), build_failure_is_violation=True)
+register("C16", c16_run, profiles=("release", "relchk", "dbg"), build_failure_is_violation=True)
 
 
 # ------------------------------------------------------------------------------------------
